@@ -330,7 +330,8 @@ func ratOf(s string) *big.Rat {
 }
 
 var numLits = []string{"0", "1", "7", "12.7", "0.5", "2.5", "-3.9", "100", "127", "128", "255", "-128", "-129", "32767", "40000",
-	"2147483647", "3000000000", "9007199254740993", "123456789.987654321", "0.99999999999999999999", "1e3", "1.5e2", "-0.5", "-0.99", "1.0000000000000000001"}
+	"2147483647", "3000000000", "9007199254740993", "123456789.987654321", "0.99999999999999999999", "1e3", "1.5e2", "-0.5", "-0.99", "1.0000000000000000001",
+	"1e-30", "3e33", "2e-25", "7e-23", "1e22", "1e23", "5e-324", "1.7976931348623157e308", "9e-7"}
 
 type bgen struct {
 	s     *Stream
